@@ -613,14 +613,18 @@ func walkComponent(g *G, n int, opts map[string]string) *Out {
 		}
 		props := g.genProps()
 		loop := as.hasLoop()
-		if replay == nil && ctl != nil && g.chance(0.3) {
+		bpChance := 0.3
+		if g.mode == "c05" {
+			bpChance = 0.55
+		}
+		if replay == nil && ctl != nil && g.chance(bpChance) {
 			// adaptive breakpoint: stop at a node this very walk reaches after its
 			// first stride (so that messages have been consumed when it fires)
 			dry := runWalk(spec, st.core(), deepCopy(msgs, nil).([]interface{}), &core.Control{Limit: limit}, props, loop)
 			if dry.W != nil {
 				var cands []string
 				for i, sd := range dry.W.Strides {
-					if i >= 1 && sd.To != nil && sd.To.Node != st.Node {
+					if (i >= 1 || sd.Consumed != nil) && sd.To != nil && sd.To.Node != st.Node {
 						cands = append(cands, sd.To.Node)
 					}
 				}
